@@ -324,6 +324,9 @@ def run(ctx):
         # (1) every resource type, stage mask fixed;  (2) every stage mask, on a sampler
         res = [(r, 1) for r in ctx.explore('bind_group_layout_entry/any-resource', mk(h.stages),
                                            assume=[h.assumption(), h.stages == 2], anchors=ANCHORS)]
+        # and once more with the complementary stage set (VERTEX | COMPUTE): the visibility must be the supplied set for EVERY resource type
+        res += [(r, 1) for r in ctx.explore('bind_group_layout_entry/any-resource/vertex+compute', mk(h.stages),
+                                            assume=[h.assumption(), h.stages == 5], anchors=ANCHORS)]
         res += [(r, 2) for r in ctx.explore('bind_group_layout_entry/any-stage-mask', mk(h.stages),
                                             assume=[h.assumption(), h.tdisc == T_['Sampler']],
                                             anchors=['bind_group_layout_entry', 'quote_shader_stages'])]
